@@ -34,6 +34,7 @@ CONSTANTS
   UpdNfcs,     \* set of BOOLEAN: do updates / releases repeat the consumer identification of the create
   AddrKinds,   \* address members of the consumer identification in a create: subset of {"none","v4","v6","fqdn","all"}
   SinkAnswers, \* statuses the consumer's notification endpoint may answer a re-authorisation notification with
+  Faults,      \* faults an update may be served under: subset of {"none", "abmf"} ("abmf": the account server is unreachable)
   Events,      \* TRUE: the model's subscribers also send one-time events (event based charging next to their sessions)
   EvTypes,     \* values of oneTimeEventType a create may carry ("" = absent); legal with and without oneTimeEvent
   Traffic,     \* numbers of unrelated one-time creates (they advance the global record counter)
@@ -184,8 +185,13 @@ UsageOK(u, tpl, tg) ==
      /\ (\A j \in 1..Len(tpl) : j # i => tpl[j].rg # e.rg)
 
 DoUpdate ==
-  \E t \in Targets, tpl \in UsageTemplates, tg \in TrigSets, nfc \in UpdNfcs :
+  \E t \in Targets, tpl \in UsageTemplates, tg \in TrigSets, nfc \in UpdNfcs, flt \in Faults :
     /\ UsageOK(t.u, tpl, tg)
+    \* a fault is explored where the request reserves (a failed final settlement leaves reported usage unpaid: then "the money
+    \* available" of C06 is no longer a function of what was credited and reported, and C01 assumes reachable servers)
+    /\ (flt # "none" => /\ \E i \in 1..Len(tpl) : HasOnline(tpl[i])
+                        /\ tg \notin {"final", "final_then_partial"}
+                        /\ \A i \in 1..Len(tpl) : HasOnline(tpl[i]) => RType(t.u, tpl[i].rg) = "reserve")
     /\ LET us  == Stamp(tpl, 1, nid)
            pre == st
            sel == IF t.u \in Dom(st.ue) /\ (t.ref \in Dom(st.ue[t.u].cdr) \/ (DEV_LastRecordOverride /\ Len(st.ue[t.u].recs) > 1))
@@ -194,7 +200,7 @@ DoUpdate ==
                             ELSE st.ue[t.u].recs[st.ue[t.u].cdr[t.ref]])
                     ELSE [pad |-> 0, conts |-> <<>>]
            a   == [u |-> t.u, ref |-> t.ref, usage |-> us, trig |-> TrigSeq(tg),
-                   split |-> Size(sel) + CountC(tpl, 1) > Limit]
+                   split |-> Size(sel) + CountC(tpl, 1) > Limit, fault |-> flt]
            r   == Update(st, a)
            h2  == HUpdate(h, a, r.resp)
        IN /\ st' = r.st /\ h' = h2
@@ -202,8 +208,8 @@ DoUpdate ==
                       \cup (IF r.resp.status = 200 THEN GAFlags(pre, t.u, us, r.resp.mui, TrigSeq(tg), 1) ELSE {})
                       \cup (IF r.resp.status >= 400 /\ r.st # pre THEN {"C12.rejection_no_effect"} ELSE {})
           /\ nid' = nid + CountC(tpl, 1)
-          /\ hist' = Append(hist, [a |-> "update", u |-> t.u, s |-> t.s, usage |-> tpl, trig |-> TrigSeq(tg), nfc |-> nfc,
-                                   sig |-> StepSig("update:" \o RefKind(t) \o (IF nfc THEN ":nfc" ELSE ""), pre, r.st, t.u, us, r.resp, TrigSeq(tg))])
+          /\ hist' = Append(hist, [a |-> "update", u |-> t.u, s |-> t.s, usage |-> tpl, trig |-> TrigSeq(tg), nfc |-> nfc, fault |-> flt,
+                                   sig |-> StepSig("update:" \o RefKind(t) \o (IF nfc THEN ":nfc" ELSE "") \o ":" \o flt, pre, r.st, t.u, us, r.resp, TrigSeq(tg))])
           /\ UNCHANGED labels
 
 DoRelease ==
